@@ -6,6 +6,7 @@
 
 use crate::{
     Archive, ArchiveBuilder, Error, ListfileOption, Result,
+    builder::encrypt_file_data,
     compression::{self, CompressionMethod, compress},
     crypto::{encrypt_block, hash_string, hash_type},
     header::FormatVersion,
@@ -1046,31 +1047,11 @@ impl MutableArchive {
                 base_key
             };
 
-            // Remember original length before padding (reserved for future use)
-            let _original_len = output_data.len();
-
-            // Pad to 4-byte boundary for encryption
-            while !output_data.len().is_multiple_of(4) {
-                output_data.push(0);
-            }
-
-            // Convert to u32s for encryption
-            let mut u32_buffer: Vec<u32> = output_data
-                .chunks_exact(4)
-                .map(|chunk| u32::from_le_bytes([chunk[0], chunk[1], chunk[2], chunk[3]]))
-                .collect();
-
-            encrypt_block(&mut u32_buffer, key);
-
-            // Convert back to bytes, but preserve original length info
-            output_data.clear();
-            for &value in &u32_buffer {
-                output_data.extend_from_slice(&value.to_le_bytes());
-            }
-
-            // For encrypted files, the compressed_size should include padding,
-            // but file_size should be the original unpadded size
-            // This will be handled in the block entry creation
+            // Encrypt the block at its own length, exactly as `ArchiveBuilder` does.
+            // Padding it to a dword boundary would change the stored size: a compressed
+            // block padded up to the file size is taken for uncompressed data by the
+            // reader, and the pad bytes end up behind the compressed stream.
+            encrypt_file_data(&mut output_data, key);
 
             flags |= BlockEntry::FLAG_ENCRYPTED;
             if options.fix_key {
